@@ -159,6 +159,17 @@ def run(ctx) -> int:
         dr = rng.random()
         outp = "auto" if dr < 0.5 else ([] if dr < 0.65 else rng.sample(preds, min(len(preds), 2)) + ([("nowhere", 1)] if dr > 0.9 else []))
         cases.append((text, fl, inp, outp))
+    # symbol-kind sweep: in programs the traits rewrite, every integer literal in turn becomes a string, a constant, #sup,
+    # a function term, a negative number, zero (code that reads `.number` or compares with 0 must look at the type first)
+    import tgen
+    sweep = []
+    for name, g in sorted(tgen.GENERATORS.items()):
+        for _ in range(3 if ctx.quick() else 40):
+            sweep += [v for v in gen.exotic_sweep(g(rng))]
+    rng.shuffle(sweep)
+    for text in sweep[:(350 if ctx.quick() else 20000)]:
+        if safe(text):
+            cases.append((text, rng.choice([default, default, allf]), "auto", "auto"))
     if not ctx.quick():
         small = [t for _, t in harvested if len(t) < 160][:12]
         for t in small:
